@@ -159,6 +159,9 @@ func (p *Program) buildFuncUnit(fn *ssa.Function) (ur *UnitResult) {
 	if f.contract != nil {
 		env := f.specEnv(st, st).asAssume("true")
 		for _, rq := range f.contract.Requires {
+			if rq.ObjInv {
+				g.note("object invariant assumed on entry of %s (established by the constructor and re-proved at every return of every method under contract; callers are not asked for it): %s", fn.Name(), rq.Text)
+			}
 			g.assume("true", env.evalBool(rq.E))
 		}
 		env = f.specEnv(st, st)
@@ -319,11 +322,13 @@ func (g *Gen) declsText() string {
 }
 
 // body: declarations plus the assumptions made before sequence point 'upto'.
-func (g *Gen) body(qf bool, upto int) string {
+func (g *Gen) body(qf bool, upto int) string { return g.bodyR(qf, upto, 0) }
+
+func (g *Gen) bodyR(qf bool, upto int, rc int) string {
 	var sb strings.Builder
 	sb.WriteString(g.declsText())
 	for _, a := range g.asms {
-		if a.seq >= upto {
+		if a.seq >= upto || (rc > 0 && a.round > rc) {
 			continue
 		}
 		if qf && isQuantified(a.text) {
@@ -350,15 +355,20 @@ func (g *Gen) queryOpt(obls []*Obligation, qf bool, sliced bool) string {
 }
 
 func (g *Gen) queryAbs(obls []*Obligation, qf bool, sliced bool, absMul bool) string {
+	return g.queryR(obls, qf, sliced, absMul, 0)
+}
+
+// queryR: rc > 0 keeps only the ground instances made in instantiation rounds <= rc
+func (g *Gen) queryR(obls []*Obligation, qf bool, sliced bool, absMul bool, rc int) string {
 	if sliced && len(obls) == 1 {
-		return g.slicedQuery(obls[0], qf, absMul)
+		return g.slicedQuery(obls[0], qf, absMul, rc)
 	}
 	sorted := append([]*Obligation{}, obls...)
 	sort.SliceStable(sorted, func(i, j int) bool { return sorted[i].Seq < sorted[j].Seq })
 	first := sorted[0].Seq
 	var sb strings.Builder
 	sb.WriteString(g.preludeOpt(qf, absMul))
-	sb.WriteString(g.body(qf, first))
+	sb.WriteString(g.bodyR(qf, first, rc))
 	var gs []string
 	prefix := "true"
 	prev := first
@@ -366,6 +376,9 @@ func (g *Gen) queryAbs(obls []*Obligation, qf bool, sliced bool, absMul bool) st
 		if k > 0 {
 			var between []string
 			for _, a := range g.asms {
+				if rc > 0 && a.round > rc {
+					continue
+				}
 				if a.seq >= prev && a.seq < o.Seq && !(qf && isQuantified(a.text)) {
 					between = append(between, a.text)
 				}
@@ -381,6 +394,9 @@ func (g *Gen) queryAbs(obls []*Obligation, qf bool, sliced bool, absMul bool) st
 		if o.Origin != "" {
 			var priv []string
 			for _, a := range g.privAsms[o.Origin] {
+				if rc > 0 && a.round > rc {
+					continue
+				}
 				if a.seq < o.Seq && !(qf && isQuantified(a.text)) {
 					priv = append(priv, a.text)
 				}
@@ -393,19 +409,22 @@ func (g *Gen) queryAbs(obls []*Obligation, qf bool, sliced bool, absMul bool) st
 	return sb.String()
 }
 
-func (g *Gen) slicedQuery(o *Obligation, qf bool, absMul bool) string {
+func (g *Gen) slicedQuery(o *Obligation, qf bool, absMul bool, rc int) string {
 	if g.slicer == nil {
 		g.slicer = g.newSlicer()
 	}
 	var texts []string
 	for _, a := range g.asms {
-		if a.seq >= o.Seq || (qf && isQuantified(a.text)) {
+		if a.seq >= o.Seq || (qf && isQuantified(a.text)) || (rc > 0 && a.round > rc) {
 			continue
 		}
 		texts = append(texts, a.text)
 	}
 	if o.Origin != "" {
 		for _, a := range g.privAsms[o.Origin] {
+			if rc > 0 && a.round > rc {
+				continue
+			}
 			if a.seq < o.Seq && !(qf && isQuantified(a.text)) {
 				texts = append(texts, a.text)
 			}
@@ -613,6 +632,26 @@ func (ur *UnitResult) discharge(opt Options) {
 
 func (ur *UnitResult) solveOne(r *OblResult, opt Options, write func(hint, text string) string) {
 	g := ur.gen
+	if g.maxRound > 1 {
+		// stage 0r: only the first round's instances of the quantified hypotheses (later rounds multiply the
+		// query size; most proofs need none of them). Sliced first, then unsliced; only "unsat" is used.
+		for _, sl := range []bool{true, false} {
+			fileR := write(r.Name+"_r1", g.queryR([]*Obligation{r.obl}, true, sl, g.usedEmul, 1))
+			ansR, allR := race(fileR, opt.TimeoutMs, opt.Agree, opt.Solvers)
+			if !opt.KeepSMT {
+				os.Remove(fileR)
+			}
+			if ansR.Status == "unsat" {
+				r.Stage, r.Solver, r.TimeS, r.Status = "qf-round1", ansR.Solver, ansR.TimeS, "proved"
+				for _, a := range allR {
+					if a.Status == "unsat" {
+						r.Agree++
+					}
+				}
+				return
+			}
+		}
+	}
 	if g.usedEmul {
 		// stage 0a: as stage 0 with the element-address products uninterpreted (only "unsat" is trusted)
 		fileA := write(r.Name+"_sliced_abs", g.queryAbs([]*Obligation{r.obl}, true, true, true))
